@@ -7,7 +7,7 @@
 (* collision rule refuses, and prints each explored history for replay.       *)
 EXTENDS MapTree, MapDict, Json
 
-CONSTANTS MaxOps, EmitEdges, WithReads,
+CONSTANTS MaxOps, EmitEdges, EmitOneIn, WithReads,
           DigMode,     \* "all": every assignment over DigSet^4; "spread": distinct first-level digests; "clustered": tiny alphabets
           GrowUntil, ShrinkFrom, EmitDepth   \* simulation walks (see MC_Array)
 
@@ -16,7 +16,8 @@ VARIABLES dict,     \* layer A: entries [k, v, d]; value ids encode their size (
 
 mvars == <<dig, root, dict, nextId, hist, res>>
 
-Emit(h) == IF EmitEdges THEN PrintT(ToJson(h)) ELSE TRUE
+\* EmitOneIn > 1: print only a random sample of the explored transitions (the value of the conjunct is TRUE either way)
+Emit(h) == IF EmitEdges /\ (EmitOneIn <= 1 \/ RandomElement(1..EmitOneIn) = 1) THEN PrintT(ToJson(h)) ELSE TRUE
 Step(o) == hist' = Append(hist, o) /\ Emit(hist')
 SizeOfId(v) == v % 1000
 KeysSeq == [k \in 1..Cardinality(Keys) |-> dig[k]]
